@@ -244,6 +244,11 @@ def history_search(ck: Ck) -> None:
                     ck.seen(('h', kind, ml, s))
                 if r is None:
                     continue
+                # the same call again, with nothing in between: if it fails in the same way the failure does not depend on the
+                # history (the exhaustive search below reports it under its own key)
+                if (kv_oracle(s, ml) if kv else oracle(s, ml)) == r:
+                    ck.count('search_history_independent_failures')
+                    continue
                 mode = 'multi' if ml else 'single'
                 key = f'roundtrip-after-{kind}-{mode}' + ('-kvparse' if kv else '')
                 if key in reported:
